@@ -440,6 +440,32 @@ func runC05(env *lib.Env, rep *lib.Report) {
 			rep.AddFailure(x.Fail)
 		}
 	}
+	// (10) strings whose content begins or ends with a double quote, next to the same strings without it: as
+	// stored values, as WHERE literals in every operator and operand order, and as select-list literals
+	if env.Shard == 5%env.NShards {
+		vals := []string{"6\"", "6", "\"x\"", "x", "\"", "", "x\"y", "\"\"", "\"x"}
+		var rows [][]any
+		for i, v := range vals {
+			rows = append(rows, []any{int64(i + 1), int64(i), v, i%2 == 0})
+		}
+		x := lib.RunOnce(func(c *lib.Ctx) {
+			qw := newQWorld(c, []*qTable{{name: "t", cols: c05Cols, rows: rows}})
+			defer qw.w.destroy()
+			r.check(qw, &qQuery{items: star, from: from, limit: -1, offset: -1}, "quote-edged-strings", "")
+			for _, v := range vals {
+				for _, op := range []string{"=", "!=", "<", "<=", ">", ">="} {
+					r.check(qw, &qQuery{items: star, from: from, where: &qCond{atoms: []qAtom{{qc("", "c"), ql(v), op}}}, limit: -1, offset: -1}, "quote-edged-strings", "")
+					r.check(qw, &qQuery{items: star, from: from, where: &qCond{atoms: []qAtom{{ql(v), qc("", "c"), op}}}, limit: -1, offset: -1}, "quote-edged-strings", "")
+				}
+				r.check(qw, &qQuery{items: []qItem{{kind: "lit", lit: v}, {kind: "col", col: qRef{"", "c"}}}, from: from, limit: -1, offset: -1}, "quote-edged-strings", "")
+				r.check(qw, &qQuery{items: []qItem{{kind: "cond", cond: &qCond{atoms: []qAtom{{qc("", "c"), ql(v), "="}}}}, {kind: "lit", lit: v, alias: "l"}}, from: from, orderBy: []qSort{{qRef{"", "c"}, "DESC"}}, limit: -1, offset: -1}, "quote-edged-strings", "")
+			}
+		}, nil)
+		if x.Fail != nil {
+			rep.AddFailure(x.Fail)
+		}
+	}
+	rep.Bounds["quote-edged strings"] = "c in {6\", 6, \"x\", x, \", empty, x\"y, \"\", \"x}: each as a WHERE literal in every operator and operand order and as a select-list literal"
 	rep.Bounds["bigint neighbours"] = "b in {2^53-1 .. 2^53+2, 2^63-3 .. 2^63-1} compared with each of these values in every operator and operand order; ORDER BY b"
 	rep.Bounds["zero-padded literals"] = "a/b compared with 07..012, 064, 0100 in every operator and operand order; LIMIT/OFFSET 08..012 (12-row table; must be read as decimal or refused)"
 	rep.Bounds["queries executed (this shard)"] = r.nQuery
